@@ -1,1 +1,130 @@
 // harness bodies for h2 src/proto/ping_pong.rs (compiled in-crate as `verif_h`, feature "verif")
+use super::*;
+use crate::codec::verif_h::{codec_buffered, codec_set_blocked, mk_codec, Mock};
+use crate::proto::verif_h::{cw, SymBuf};
+use std::task::Waker;
+
+/// C14.pingack + C14.pong (state part): `recv_ping` on any payload / ACK flag, from any
+/// of the three pending-ping situations, under the stated precondition that the
+/// previous PONG was already buffered (`Connection::poll_ready` runs first - argued).
+pub fn c14_recv_ping() {
+    let mut pp = PingPong::new();
+    let pending: u8 = kani::any();
+    kani::assume(pending < 3);
+    if pending >= 1 {
+        pp.ping_shutdown();
+        if pending == 2 {
+            pp.pending_ping.as_mut().unwrap().sent = true;
+        }
+    }
+    let payload: [u8; 8] = kani::any();
+    let ack: bool = kani::any();
+    let ping = if ack { Ping::pong(payload) } else { Ping::new(payload) };
+    let r = pp.recv_ping(ping);
+    if !ack {
+        assert!(matches!(r, ReceivedPing::MustAck), "a PING must be acknowledged");
+        assert!(pp.pending_pong == Some(payload), "PONG payload differs from the PING payload");
+        assert!(pp.pending_ping.is_some() == (pending >= 1), "a PING changed the pending shutdown ping");
+    } else {
+        assert!(pp.pending_pong.is_none(), "an ACK must not be acknowledged");
+        if pending >= 1 && payload == Ping::SHUTDOWN {
+            assert!(matches!(r, ReceivedPing::Shutdown));
+            assert!(pp.pending_ping.is_none());
+        } else {
+            assert!(matches!(r, ReceivedPing::Unknown), "an ACK that answers nothing must be ignored");
+            assert!(pp.pending_ping.is_some() == (pending >= 1), "an unrelated ACK consumed the pending ping");
+        }
+    }
+    kani::cover!(matches!(r, ReceivedPing::Shutdown), "shutdown_ack");
+    kani::cover!(true, "end");
+    std::mem::forget(pp);
+}
+
+/// C14.pong with the real codec: exactly one PONG with the same 8 bytes, only when the
+/// codec has room; under back-pressure the slot is kept and nothing is buffered; a second
+/// call buffers nothing more.
+pub fn c14_send_pending_pong() {
+    let mut pp = PingPong::new();
+    let payload: [u8; 8] = kani::any();
+    let r0 = pp.recv_ping(Ping::new(payload));
+    assert!(matches!(r0, ReceivedPing::MustAck));
+    let mut codec = mk_codec::<SymBuf>(Mock::new([0; crate::codec::verif_h::EXP], 0, 0));
+    let blocked: bool = kani::any();
+    codec_set_blocked(&mut codec, blocked);
+    let waker = Waker::noop();
+    let mut cx = Context::from_waker(&waker);
+    let r = pp.send_pending_pong(&mut cx, &mut codec);
+    if blocked {
+        assert!(r.is_pending(), "PONG reported sent although the codec had no room");
+        assert!(pp.pending_pong == Some(payload), "C14: owed PONG lost under back-pressure");
+        assert!(codec_buffered(&codec).is_empty());
+    } else {
+        assert!(matches!(r, Poll::Ready(Ok(()))));
+        assert!(pp.pending_pong.is_none(), "PONG slot not cleared: it would be sent twice");
+        let b = codec_buffered(&codec);
+        assert!(b.len() == 17, "exactly one 17-byte PING frame must be buffered");
+        assert!(b[0] == 0 && b[1] == 0 && b[2] == 8 && b[3] == 6 && b[4] == 1, "PING head with ACK");
+        assert!(b[5] == 0 && b[6] == 0 && b[7] == 0 && b[8] == 0, "PING on stream 0");
+        let mut i = 0;
+        while i < 8 {
+            assert!(b[9 + i] == payload[i], "C14: PONG does not echo the PING payload");
+            i += 1;
+        }
+        // a second call must not produce a second PONG
+        let r2 = pp.send_pending_pong(&mut cx, &mut codec);
+        assert!(matches!(r2, Poll::Ready(Ok(()))));
+        assert!(codec_buffered(&codec).len() == 17, "C14: a second PONG was produced");
+    }
+    kani::cover!(blocked, "back_pressure");
+    kani::cover!(!blocked, "sent");
+    kani::cover!(true, "end");
+    std::mem::forget(r);
+    std::mem::forget(codec);
+    std::mem::forget(pp);
+}
+
+/// C14.user / C07.ping: the user-ping handshake as a sequential automaton, and what
+/// happens when the connection side goes away.
+pub fn c14_user_ping_automaton() {
+    let mut pp = PingPong::new();
+    let up = pp.take_user_pings().unwrap();
+    assert!(pp.take_user_pings().is_none(), "user pings handed out twice");
+    // EMPTY -> PENDING_PING
+    assert!(up.send_ping().is_ok());
+    // a second ping while one is pending is refused without touching the state
+    assert!(matches!(up.send_ping(), Err(None)), "second user ping accepted while one is in flight");
+    assert!(up.0.state.load(Ordering::Acquire) == USER_STATE_PENDING_PING);
+    let wk = cw::waker(2);
+    let mut cx = Context::from_waker(&wk);
+    assert!(up.poll_pong(&mut cx).is_pending());
+    // connection writes the PING (state part of send_pending_ping)
+    up.0.state.store(USER_STATE_PENDING_PONG, Ordering::Release);
+    // an ACK with a foreign payload is ignored, the USER payload completes the handshake
+    let other: [u8; 8] = kani::any();
+    kani::assume(other != Ping::USER && other != Ping::SHUTDOWN);
+    let w0 = cw::wakes(2);
+    assert!(matches!(pp.recv_ping(Ping::pong(other)), ReceivedPing::Unknown));
+    assert!(up.0.state.load(Ordering::Acquire) == USER_STATE_PENDING_PONG);
+    assert!(matches!(pp.recv_ping(Ping::pong(Ping::USER)), ReceivedPing::Unknown));
+    assert!(up.0.state.load(Ordering::Acquire) == USER_STATE_RECEIVED_PONG);
+    assert!(cw::wakes(2) == w0 + 1, "C06: pong waiter not woken");
+    // a duplicate ACK is ignored
+    assert!(matches!(pp.recv_ping(Ping::pong(Ping::USER)), ReceivedPing::Unknown));
+    assert!(matches!(up.poll_pong(&mut cx), Poll::Ready(Ok(()))));
+    assert!(up.0.state.load(Ordering::Acquire) == USER_STATE_EMPTY);
+    // connection goes away while a ping is in flight: everything resolves with an error
+    assert!(up.send_ping().is_ok());
+    assert!(up.poll_pong(&mut cx).is_pending());
+    let w1 = cw::wakes(2);
+    drop(pp.user_pings.take());
+    assert!(cw::wakes(2) == w1 + 1, "C07.ping: pong waiter not woken when the connection ended");
+    let r = up.poll_pong(&mut cx);
+    assert!(matches!(&r, Poll::Ready(Err(_))), "C07.ping: poll_pong would hang after the connection ended");
+    let s = up.send_ping();
+    assert!(matches!(&s, Err(Some(_))), "C07.ping: send_ping accepted after the connection ended");
+    kani::cover!(true, "end");
+    std::mem::forget(r);
+    std::mem::forget(s);
+    std::mem::forget(up);
+    std::mem::forget(pp);
+}
